@@ -1,7 +1,7 @@
 (* Properties_C11.v -- any pattern string is safely rejected or compiled; matching stays in bounds.
    Statements only; proofs are in ReProps*.v. *)
 From Coq Require Import List NArith ZArith.
-From NV Require Import Bytes GenConsts ReSyntax ReParse ReEmit ReVM ReSem RsetDefs ReProps ReProps2 ReProps3 ReProps5.
+From NV Require Import Bytes GenConsts ReSyntax ReParse ReEmit ReVM ReSem RsetDefs ReProps ReProps2 ReProps3 ReProps5 ReProps6.
 Import ListNotations.
 
 (* for EVERY byte string: if regcomp accepts it, the emitted program (MARK 0, code, MARK 1, MATCH)
@@ -41,6 +41,25 @@ Theorem C11_terminates_partial : forall St (atom_step : atom -> St -> res (optio
   forall d pc s, pc < length (code p) -> fst (rec St atom_step mark_step (code p) d pc s) <> Abort.
 Proof. exact terminates_partial. Qed.
 Print Assumptions C11_terminates_partial.
+
+(* for EVERY byte string without NUL that ends in ')' -- every string rset_make hands to regcomp does
+   (C11_rset_pattern_ends_in_paren) -- the parser returns a tree or a rejection together with the
+   unread rest of the string: it never reads or steps past the terminator (result OOB) and never
+   runs out of fuel 2|p|+2 (result NoFuel), i.e. it terminates *)
+Theorem C11_parse_in_bounds : forall p : bytes, Forall (fun b => b <> 0%N) p -> (p = [] \/ last p 0%N = 41%N) ->
+  exists x s', parse_pat p = Ok (x, s') /\ (exists pre, p = pre ++ s').
+Proof. exact parse_in_bounds. Qed.
+Print Assumptions C11_parse_in_bounds.
+
+Theorem C11_rset_pattern_ends_in_paren : forall ps, rset_pattern ps = [] \/ last (rset_pattern ps) 0%N = 41%N.
+Proof. exact rset_pattern_good. Qed.
+Print Assumptions C11_rset_pattern_ends_in_paren.
+
+(* without the wrapper the statement is false: "a{" steps past the terminator, a lone backslash spins
+   (both unreachable: rset_make is the only caller of regcomp) *)
+Theorem C11_parse_bare_refuted : parse_pat [97; 123]%N = OOB SBrace /\ parse_pat [92]%N = NoFuel.
+Proof. exact (conj bare_brace_oob bare_backslash_spins). Qed.
+Print Assumptions C11_parse_bare_refuted.
 
 Example C11_nonvacuous : exists p, regcomp [40; 97; 123; 50; 44; 51; 125; 41]%N = Ok (Some p).
 Proof. eexists. vm_compute. reflexivity. Qed.
